@@ -205,6 +205,7 @@ structure Stats where
   maxPath : Nat := 0
   maxDepth : Nat := 0          -- deepest value held by a variable
   blocks : Nat := 0            -- blocks allocated
+  selfTemp : Nat := 0          -- typed assignment below the root of a temporary that holds copies of the destination
   freed : Nat := 0             -- blocks freed by `clear()` / destructor cascades (allocated - live at reset)
 
 open Deep in
@@ -276,7 +277,7 @@ def Stats.show (st : Stats) : String :=
   s!"stats lines={st.lines} refused={st.refused} faults={st.faults} acc_root_clone={st.accRootClone} " ++
   s!"acc_root_inplace={st.accRootInPlace} acc_nested_clone={st.accNestedClone} acc_nested_inplace={st.accNestedInPlace} " ++
   s!"acc_clone_because_shared={st.accSharedClone} set_clone={st.setClone} set_inplace={st.setInPlace} " ++
-  s!"max_path={st.maxPath} max_value_depth={st.maxDepth} blocks_allocated={st.blocks} blocks_freed={st.freed}"
+  s!"self_temp_lines={st.selfTemp} max_path={st.maxPath} max_value_depth={st.maxDepth} blocks_allocated={st.blocks} blocks_freed={st.freed}"
 
 def traceOp (s : Deep.DState) (st : Stats) (op : Op) : Stats :=
   match op with
@@ -284,7 +285,15 @@ def traceOp (s : Deep.DState) (st : Stats) (op : Op) : Stats :=
     let st := { st with maxPath := max st.maxPath p.length }
     (match p, lf with
      | [], .assign (.var _) => st
-     | p, lf => traceWalk (s.h.next + Deep.allocBound op + 1) s.vars s.h (s.vars v) false st p lf)
+     | p, lf =>
+       if selfTemp v p lf then
+         -- the temporary (here: the copy of v in the spare slot) exists before the walk
+         (match lf with
+          | .set e =>
+            traceWalk (s.h.next + Deep.allocBound op + 1) (upd s.vars tmpVar (Deep.copyCell s.h (s.vars v)).2)
+              (Deep.copyCell s.h (s.vars v)).1 (s.vars v) false { st with selfTemp := st.selfTemp + 1 } p (.set (e.redirect v tmpVar))
+          | _ => st)
+       else traceWalk (s.h.next + Deep.allocBound op + 1) s.vars s.h (s.vars v) false st p lf)
   | _ => st
 
 
